@@ -54,6 +54,16 @@ Theorem C11_v2_presigned_accept_complete : forall mac auth r now_ns ak ex sg t f
 Proof. exact v2_presigned_accept_complete. Qed.
 Print Assumptions C11_v2_presigned_accept_complete.
 
+(* what the signature covers: two requests have the same string to sign only if their method, Content-MD5, Content-Type and Date (resp.
+   Expires) are equal and their x-amz lines + canonical resource are equal - so altering any of the four fields, or the resource, yields a
+   different signed text (none of the fields can hold a line feed: http forbids it in methods and header values) *)
+Theorem C11_string_to_sign_pins_its_fields : forall mode m1 p1 q1 h1 v1 m2 p2 q2 h2 v2,
+  Forall (fun f => ~ In 10 f) (v2_fields mode m1 q1 h1) -> Forall (fun f => ~ In 10 f) (v2_fields mode m2 q2 h2) ->
+  v2_string_to_sign mode m1 p1 q1 h1 v1 = v2_string_to_sign mode m2 p2 q2 h2 v2 ->
+  v2_fields mode m1 q1 h1 = v2_fields mode m2 q2 h2 /\ v2_rest p1 q1 h1 v1 = v2_rest p2 q2 h2 v2.
+Proof. exact v2_string_to_sign_pins. Qed.
+Print Assumptions C11_string_to_sign_pins_its_fields.
+
 (* the AWS documentation examples, evaluated with the Gallina HMAC-SHA1 and base64 *)
 Example C11_aws_examples :
   mac_sha1 (b "wJalrXUtnFEMI/K7MDENG/bPxRfiCYEXAMPLEKEY")
